@@ -2870,7 +2870,7 @@ def bi2(proj, rep, modules=('numqi.group.spf2',)):
 
 
 # ------------------------------------------------------------------------------------------------ A12 / SD1
-RULE_A12 = ('A12: no `backward` of a torch.autograd.Function selects its formula by the numeric content of an operator / tensor (array_equal / allclose / count_nonzero '
+RULE_A12 = ('A12: no `backward` of a torch.autograd.Function re-normalises a quantity of the reverse sweep by a norm / trace computed from the data, and none selects its formula by the numeric content of an operator / tensor (array_equal / allclose / count_nonzero '
             '/ all / any): "every factor is Hermitian" does not make their PRODUCT Hermitian, and a formula chosen by the current value is not the derivative at '
             'neighbouring points.')
 RULE_SD1 = ('SD1: no quotient has a pairwise difference of one vector with itself as denominator (`(f(a_i) - f(a_j)) / (a_i - a_j)` written with two broadcast views of '
@@ -2896,7 +2896,16 @@ def a12(proj, rep):
             if isinstance(g, (ast.If, ast.IfExp)):
                 if any(isinstance(c, ast.Call) and ast.unparse(c.func).split('.')[-1] in ('array_equal', 'allclose', 'count_nonzero', 'isclose', 'equal') for c in ast.walk(g.test)):
                     bad = g
-        if bad is not None:
+        renorm = None
+        for b in ast.walk(fi.node):
+            if isinstance(b, (ast.BinOp, ast.AugAssign)) and isinstance(b.op, ast.Div):
+                den = b.right if isinstance(b, ast.BinOp) else b.value
+                if any(isinstance(c, ast.Call) and ast.unparse(c.func).split('.')[-1] in ('norm', 'trace') for c in ast.walk(den)):
+                    renorm = b
+        if renorm is not None:
+            rep.violation('A12', f'{cq}.backward', f'`{ast.unparse(renorm)[:60]}` re-normalises a quantity of the reverse sweep by a data-dependent norm: for an input of norm c != 1 '
+                          f'the gradients computed afterwards are scaled by 1/c', m, renorm)
+        elif bad is not None:
             rep.violation('A12', f'{cq}.backward', f'`{ast.unparse(bad.test)[:70]}` chooses the gradient formula by the current value of an operator', m, bad)
         else:
             rep.ok('A12', f'{cq}.backward', 'gradient formula does not branch on operator values', m, fi.node, text=f'{cq}.backward value branches')
@@ -3666,4 +3675,226 @@ def dtf1(proj, rep, modules=None):
                 rep.touch(m)
                 rep.violation('DTF1', fi.qual, f'`{ast.unparse(bufs[tgt][0])[:60]}` is {bufs[tgt][1]}; `{ast.unparse(a)[:60]}` stores a complex value: the imaginary part is discarded', m, a)
     rep.count('DTF1.stores_into_real_buffers', n)
+    return n
+
+
+# ------------------------------------------------------------------------------------------------ round 7
+RULE_FD2 = ('FD2: floor division `//` is never applied to a parameter that is annotated / defaulted as a float (interval ends, tolerances, rates): `(upper + lower)//2` floors the '
+            'midpoint and is right only when it happens to be an integer.')
+RULE_DET1 = ('DET1: inside a loss function / forward method no tensor that takes part in the returned arithmetic is `.detach()`-ed: the gradient delivered is then not the derivative '
+             'of the returned value (detaching a mean is harmless for the L2 penalty only).')
+RULE_DT13 = ('DT13: a buffer typed after ONE input (`empty_like(x)`) does not receive products with ANOTHER input (`op[0,0]*x[...]`): the result type is the promotion of both, so a '
+             'complex operator applied to a real-typed state loses its imaginary part.')
+RULE_NRM1 = ('NRM1: normalisation is the last value-changing step: taking `.real` / `.imag` of an already normalised vector and returning it gives a vector of norm < 1.')
+RULE_ST4 = ('ST4: a function that records `shape = x.shape`, flattens the batch with `x.reshape(-1, ..)` and used to restore the layout keeps at least one later reshape / view that '
+            'mentions `shape`: without it every input with two or more batch axes comes back flattened.')
+RULE_Q8 = ('Q8: the tokenizer of the indexed Pauli-string form reads multi-digit qubit indices: the pattern given to `re.findall` contains `[0-9]+` like the validating pattern; '
+           '`[XYZI][0-9]` puts a factor on qubit 10 onto qubit 1.')
+RULE_UN1 = ('UN1: the groups returned by a splitter are unpacked in the order their sizes were given: `for indx, indy, indz in split(.., [nx, ny, nz])` - the Pauli-type letters of the '
+            'unpack targets and of the size names agree position by position.')
+RULE_D4B = ('D4b: `MeasureGate.forward` passes only the incoming state, its own index and its generator to `measure_quantum_vector`: no other attribute of the gate (a record of an '
+            'earlier run) may steer the measurement of a later state.')
+RULE_CHK1 = ('CHK1: the input checker of the SDP criteria only CHECKS: `rho` is re-bound by plumbing (asarray / reshape) only, never replaced by a spectrally modified copy - the '
+             'criterion would be evaluated on another state than the one given.')
+
+
+def fd2_det1_nrm1(proj, rep, modules=None):
+    for k, v in (('FD2', RULE_FD2), ('DET1', RULE_DET1), ('NRM1', RULE_NRM1)):
+        rep.rule(k, v)
+    nfun = 0
+    for fi in proj.iter_functions():
+        m = fi.module
+        if not _in_scope(m, modules):
+            continue
+        nfun += 1
+        floatp = set()
+        args = fi.node.args
+        pos = args.posonlyargs + args.args
+        for a, d in zip(reversed(pos), reversed(args.defaults)):
+            if isinstance(d, ast.Constant) and isinstance(d.value, float):
+                floatp.add(a.arg)
+        for a in pos + args.kwonlyargs:
+            if a.annotation is not None and ast.unparse(a.annotation) == 'float':
+                floatp.add(a.arg)
+        fname = fi.qual.rsplit('.', 1)[1]
+        for b in ast.walk(fi.node):
+            if isinstance(b, ast.BinOp) and isinstance(b.op, ast.FloorDiv) and floatp:
+                if any(isinstance(y, ast.Name) and y.id in floatp for y in ast.walk(b.left)) or any(isinstance(y, ast.Name) and y.id in floatp for y in ast.walk(b.right)):
+                    rep.touch(m)
+                    rep.violation('FD2', fi.qual, f'`{ast.unparse(b)[:50]}` floor-divides a float parameter: the result is floored to an integer value', m, b)
+            # DET1
+            if ('loss' in fname or fname == 'forward') and isinstance(b, ast.Call) and isinstance(b.func, ast.Attribute) and b.func.attr == 'detach' and not b.args:
+                par = getattr(b, '_parent', None)
+                st = _stmt(b)
+                # only a detached term that flows into the RETURNED value matters (diagnostics stored on self are fine)
+                retnames = {y.id for r in ast.walk(fi.node) if isinstance(r, ast.Return) and r.value is not None for y in ast.walk(r.value) if isinstance(y, ast.Name)}
+                changed = True
+                while changed:
+                    changed = False
+                    for s2 in ast.walk(fi.node):
+                        if isinstance(s2, ast.Assign) and any(isinstance(t, ast.Name) and t.id in retnames for t in s2.targets):
+                            for y in ast.walk(s2.value):
+                                if isinstance(y, ast.Name) and y.id not in retnames:
+                                    retnames.add(y.id)
+                                    changed = True
+                flows = isinstance(st, ast.Return) or (isinstance(st, ast.Assign) and any(isinstance(t, ast.Name) and t.id in retnames for t in st.targets))
+                if flows and (isinstance(par, ast.BinOp) or (isinstance(par, ast.Call) and b in par.args and ast.unparse(par.func).split('.')[-1] in ('abs', 'sum', 'mean', 'square', 'sqrt'))):
+                    rep.touch(m)
+                    rep.violation('DET1', fi.qual, f'`{ast.unparse(par)[:70]}`: a detached tensor takes part in the returned loss; its contribution to the derivative is dropped', m, b)
+        # NRM1
+        normed = {}
+        for s in ast.walk(fi.node):
+            if isinstance(s, ast.Assign) and isinstance(s.targets[0], ast.Name) and isinstance(s.value, ast.BinOp) and isinstance(s.value.op, ast.Div) \
+                    and any(isinstance(c, ast.Call) and ast.unparse(c.func).split('.')[-1] == 'norm' for c in ast.walk(s.value.right)):
+                normed[s.targets[0].id] = s
+        for s in ast.walk(fi.node):
+            if isinstance(s, ast.Assign) and isinstance(s.targets[0], ast.Name) and s.targets[0].id in normed and s.lineno > normed[s.targets[0].id].lineno:
+                v = s.value
+                core = v.func.value if isinstance(v, ast.Call) and isinstance(v.func, ast.Attribute) and v.func.attr in ('copy', 'astype') else v
+                if isinstance(core, ast.Attribute) and core.attr in ('real', 'imag') and isinstance(core.value, ast.Name) and core.value.id == s.targets[0].id:
+                    later = [x for x in ast.walk(fi.node) if isinstance(x, ast.Assign) and isinstance(x.targets[0], ast.Name) and x.targets[0].id == s.targets[0].id and x.lineno > s.lineno
+                             and any(isinstance(c, ast.Call) and ast.unparse(c.func).split('.')[-1] == 'norm' for c in ast.walk(x.value))]
+                    if not later:
+                        rep.touch(m)
+                        rep.violation('NRM1', fi.qual, f'`{ast.unparse(s)[:50]}` projects a vector that was normalised at line {normed[s.targets[0].id].lineno} and is not normalised again: '
+                                      f'the returned vector has norm < 1', m, s)
+    rep.count('FD2.functions_scanned', nfun)
+    if nfun:
+        rep.ok('FD2', 'scope', f'{nfun} functions scanned: no floor division of a float parameter, no detached term in a loss, no projection after normalisation', proj.mod('numqi.utils'),
+               proj.mod('numqi.utils').tree, text='fd2 / det1 / nrm1 sweep')
+    return nfun
+
+
+def dt13_st4(proj, rep, modules=None):
+    rep.rule('DT13', RULE_DT13)
+    rep.rule('ST4', RULE_ST4)
+    n = n4 = 0
+    for fi in proj.iter_functions():
+        m = fi.module
+        if not _in_scope(m, modules):
+            continue
+        params = set(fi.all_params)
+        # parameter each name derives from by plumbing (reshape / view / slices)
+        src = {p: p for p in params}
+        changed = True
+        while changed:
+            changed = False
+            for s in ast.walk(fi.node):
+                if isinstance(s, ast.Assign) and isinstance(s.targets[0], ast.Name) and s.targets[0].id not in src:
+                    names = {y.id for y in ast.walk(s.value) if isinstance(y, ast.Name) and y.id in src}
+                    roots = {src[x] for x in names}
+                    if len(roots) == 1 and not any(isinstance(c, ast.BinOp) for c in ast.walk(s.value)):
+                        src[s.targets[0].id] = roots.pop()
+                        changed = True
+        for s in ast.walk(fi.node):
+            if isinstance(s, ast.Assign) and isinstance(s.targets[0], ast.Name) and isinstance(s.value, ast.Call) and ast.unparse(s.value.func).split('.')[-1] in ('empty_like', 'zeros_like') \
+                    and s.value.args and isinstance(s.value.args[0], ast.Name) and s.value.args[0].id in src and not any(k.arg == 'dtype' for k in s.value.keywords):
+                buf, origin = s.targets[0].id, src[s.value.args[0].id]
+                for a in ast.walk(fi.node):
+                    if isinstance(a, ast.Assign) and isinstance(a.targets[0], ast.Subscript) and isinstance(a.targets[0].value, ast.Name) and a.targets[0].value.id == buf:
+                        n += 1
+                        others = {src[y.id] for y in ast.walk(a.value) if isinstance(y, ast.Name) and y.id in src and src[y.id] != origin
+                                  and not (isinstance(getattr(y, '_parent', None), ast.Subscript) and getattr(y, '_parent').slice is y)
+                                  and not (isinstance(getattr(y, '_parent', None), ast.Call) and getattr(y, '_parent').func is y)}
+                        others = {o for o in others if not any(isinstance(c, ast.Call) and isinstance(c.func, ast.Name) and c.func.id == o for c in ast.walk(fi.node))}
+                        from .ownership import _array_evidence
+                        others = {o for o in others if _array_evidence(fi, o)}
+                        if others and any(isinstance(c, ast.BinOp) and isinstance(c.op, (ast.Mult, ast.MatMult)) for c in ast.walk(a.value)):
+                            rep.touch(m)
+                            rep.violation('DT13', fi.qual, f'`{ast.unparse(s)[:50]}` has the dtype of `{origin}`; `{ast.unparse(a)[:60]}` stores products with `{sorted(others)[0]}`: a complex '
+                                          f'`{sorted(others)[0]}` on a real-typed `{origin}` loses its imaginary part', m, a)
+        # ST4
+        for blk in [getattr(x, f) for x in ast.walk(fi.node) for f in ('body', 'orelse') if isinstance(getattr(x, f, None), list)]:
+            for i, st in enumerate(blk):
+                if not (isinstance(st, ast.Assign) and isinstance(st.targets[0], ast.Name) and isinstance(st.value, ast.Attribute) and st.value.attr == 'shape'
+                        and isinstance(st.value.value, ast.Name) and st.value.value.id in params):
+                    continue
+                arr, sh = st.value.value.id, st.targets[0].id
+                flat = [s2 for s2 in blk[i + 1:] if isinstance(s2, ast.Assign) and any(isinstance(t, ast.Name) and t.id == arr for t in s2.targets) and any(
+                    isinstance(c, ast.Call) and isinstance(c.func, ast.Attribute) and c.func.attr == 'reshape' and c.args and ast.unparse(c.args[0]).replace(' ', '') == '-1' for c in ast.walk(s2.value))]
+                if not flat:
+                    continue
+                n4 += 1
+                restored = any(isinstance(c, ast.Call) and isinstance(c.func, ast.Attribute) and c.func.attr in ('reshape', 'view') and any(
+                    isinstance(y, ast.Name) and y.id == sh for a2 in c.args for y in ast.walk(a2)) for c in ast.walk(fi.node) if getattr(c, 'lineno', 0) > flat[0].lineno)
+                rep.touch(m)
+                if restored:
+                    rep.ok('ST4', fi.qual, f'`{sh}` restores the batch layout after `{ast.unparse(flat[0])[:40]}`', m, st)
+                else:
+                    rep.violation('ST4', fi.qual, f'`{ast.unparse(st)}` is recorded and `{ast.unparse(flat[0])[:50]}` flattens the batch, but no later reshape uses `{sh}`: inputs with two or '
+                                  f'more batch axes come back flattened', m, st)
+    rep.count('DT13.stores_into_input_typed_buffers', n)
+    rep.count('ST4.flattened_batches', n4)
+    return n, n4
+
+
+def q8_un1_d4b_chk1(proj, rep, which):
+    n = 0
+    if 'Q8' in which:
+        rep.rule('Q8', RULE_Q8)
+        m = proj.mod('numqi.qec._qecc')
+        rep.touch(m)
+        consts = {s.targets[0].id: s.value.value for s in m.tree.body if isinstance(s, ast.Assign) and isinstance(s.targets[0], ast.Name) and isinstance(s.value, ast.Constant)
+                  and isinstance(s.value.value, str)}
+        fi = proj.func('numqi.qec._qecc.parse_simple_pauli')
+        for c in ast.walk(fi.node):
+            if isinstance(c, ast.Call) and ast.unparse(c.func) == 're.findall' and c.args:
+                pat = c.args[0]
+                txt = pat.value if isinstance(pat, ast.Constant) and isinstance(pat.value, str) else (consts.get(pat.id) if isinstance(pat, ast.Name) else None)
+                if txt is None or '[0-9]' not in txt:
+                    continue
+                n += 1
+                if '[0-9]+' in txt or '[0-9]*' in txt or '[0-9]{' in txt:
+                    rep.ok('Q8', fi.qual, f'tokenizer pattern `{txt}` reads multi-digit indices', m, c)
+                else:
+                    rep.violation('Q8', fi.qual, f'tokenizer pattern `{txt}` reads ONE digit of the qubit index: a factor on qubit 10 or above lands on qubit 1', m, c)
+    if 'UN1' in which:
+        rep.rule('UN1', RULE_UN1)
+        for fi in proj.iter_functions():
+            m = fi.module
+            if not m.name.startswith('numqi.qec'):
+                continue
+            for lp in ast.walk(fi.node):
+                if isinstance(lp, ast.For) and isinstance(lp.target, ast.Tuple) and all(isinstance(e, ast.Name) for e in lp.target.elts) and isinstance(lp.iter, ast.Call):
+                    tl = [e.id[-1] for e in lp.target.elts]
+                    if not (set(tl) <= set('xyzXYZ') and len(set(tl)) == len(tl) >= 2):
+                        continue
+                    for a in lp.iter.args:
+                        if isinstance(a, (ast.List, ast.Tuple)) and len(a.elts) == len(tl) and all(isinstance(e, ast.Name) for e in a.elts):
+                            al = [e.id[-1] for e in a.elts]
+                            if set(x.lower() for x in al) == set(x.lower() for x in tl):
+                                n += 1
+                                rep.touch(m)
+                                if [x.lower() for x in al] == [x.lower() for x in tl]:
+                                    rep.ok('UN1', fi.qual, f'`{ast.unparse(lp.target)}` unpacked in the order of `{ast.unparse(a)}`', m, lp)
+                                else:
+                                    rep.violation('UN1', fi.qual, f'`for {ast.unparse(lp.target)} in ..({ast.unparse(a)})`: the groups are unpacked in another order than their sizes are '
+                                                  f'given: the counts are attached to the wrong Pauli types', m, lp)
+    if 'D4B' in which:
+        rep.rule('D4B', RULE_D4B)
+        fi = proj.func('numqi.sim.circuit.MeasureGate.forward')
+        m = fi.module
+        rep.touch(m)
+        for c in ast.walk(fi.node):
+            if isinstance(c, ast.Call) and ast.unparse(c.func).endswith('measure_quantum_vector'):
+                n += 1
+                extra = [y.attr for a in list(c.args) + [k.value for k in c.keywords] for y in ast.walk(a) if isinstance(y, ast.Attribute) and isinstance(y.value, ast.Name)
+                         and y.value.id == 'self' and y.attr not in ('index', 'np_rng', 'seed')]
+                if extra:
+                    rep.violation('D4B', fi.qual, f'`{ast.unparse(c)[:90]}` passes `self.{extra[0]}`, a record of an earlier run, into the measurement of the current state', m, c)
+                else:
+                    rep.ok('D4B', fi.qual, 'measurement steered by the state, the index and the generator only', m, c)
+    if 'CHK1' in which:
+        rep.rule('CHK1', RULE_CHK1)
+        fi = proj.func('numqi.entangle._misc._check_input_rho_SDP')
+        m = fi.module
+        rep.touch(m)
+        for s in ast.walk(fi.node):
+            if isinstance(s, ast.Assign) and any(isinstance(t, ast.Name) and t.id == 'rho' for t in s.targets):
+                n += 1
+                if any(isinstance(b, ast.BinOp) and isinstance(b.op, (ast.MatMult, ast.Mult, ast.Div, ast.Add, ast.Sub)) for b in ast.walk(s.value)):
+                    rep.violation('CHK1', fi.qual, f'`{ast.unparse(s)[:70]}` replaces the input state by a computed one inside the input CHECK: every criterion that calls the checker is '
+                                  f'evaluated on a modified state', m, s)
+                else:
+                    rep.ok('CHK1', fi.qual, f'`{ast.unparse(s)[:50]}` plumbing only', m, s)
     return n
